@@ -396,10 +396,30 @@ def _compare_dict(got, exp, Perm):
     return None
 
 
-def _check_read(B, Perm, stem, status, exp):
-    """Read <stem>.json with the real reader and compare with the model.
-    status: 'data' (exp = expected dict), 'corrupt' or 'absent'.  -> (violation detail | None, outcome)"""
-    val, exc, out = _call(B.read_bisc_file, stem)
+def _damage(obj):
+    """Edit a returned container in place at every nesting level, the way a caller who owns it may:
+    nested containers first (reverse, drop the first entry, append a sentinel), then the top level
+    (drop a key, add a key).  Immutable members (Perm, tuples, ints) are left alone."""
+    import collections
+    if isinstance(obj, dict):
+        for v in list(obj.values()):
+            _damage(v)
+        for k in sorted(obj, key=repr)[:1]:
+            del obj[k]
+        obj["edited by the caller"] = ["edited by the caller"]
+    elif isinstance(obj, (list, collections.deque)):
+        for v in obj:
+            _damage(v)
+        obj.reverse()
+        if len(obj) > 1:
+            del obj[0]
+        obj.append("edited by the caller")
+    elif isinstance(obj, set):
+        obj.clear()
+        obj.add("edited by the caller")
+
+
+def _judge_read(val, exc, out, stem, status, exp, Perm):
     if status == "data":
         if exc is not None:
             return {"file": stem, "model": status, "exception": repr(exc)}, "data:exception"
@@ -417,6 +437,33 @@ def _check_read(B, Perm, stem, status, exp):
     return ({"file": stem, "model": status, "got": repr(val)[:300], "printed": out[:200],
              "why": "a %s file was not reported as invalid" % status},
             status + ":unreported")
+
+
+def _check_read(B, Perm, stem, status, exp):
+    """Read <stem>.json with the real reader and compare with the model; then edit the returned
+    container in place at every level and read the same path once more: the answer is again what is
+    on disk ('fresh' dimension - every read in every sub-check goes through here, and the read-back
+    after a history reads every name of the alphabet in turn, so other names holding byte-identical
+    content are asked after the edit as well).
+    status: 'data' (exp = expected dict), 'corrupt' or 'absent'.  -> (violation detail | None, outcome)"""
+    val, exc, out = _call(B.read_bisc_file, stem)
+    v, oc = _judge_read(val, exc, out, stem, status, exp, Perm)
+    if v is not None:
+        return v, oc
+    if exc is None:
+        try:
+            _damage(val)
+        except Exception:  # noqa   (an immutable answer cannot be edited: nothing to do)
+            pass
+    val2, exc2, out2 = _call(B.read_bisc_file, stem)
+    v2, oc2 = _judge_read(val2, exc2, out2, stem, status, exp, Perm)
+    if v2 is not None:
+        v2["second_read"] = "the same path read again after the caller edited the first answer in place"
+        return v2, oc2 + ":after-edit"
+    if exc2 is None and val2 is val and isinstance(val, (dict, list)):
+        return ({"file": stem, "model": status, "why": "two reads returned the very same mutable object"},
+                "same-object")
+    return None, oc
 
 
 def _still_complete(cut, full):
@@ -1263,7 +1310,7 @@ def shard_roundtrip(shard):
     return part
 
 
-def _read_shipped(part, fname):
+def _read_shipped(part, fname, reread=True):
     """Read one shipped file with the real reader. -> dict or None (violation already recorded)."""
     Perm, _, B = _lib()
     path = os.path.join(_SHIPPED, fname)
@@ -1292,6 +1339,17 @@ def _read_shipped(part, fname):
         if len(set(lst)) != len(lst):
             part.violation("shipped", {"file": fname, "level": k}, {"why": "duplicate entries"})
             return None
+    if reread:
+        # the same file once more after the caller edited the first answer in place
+        keep = {k: [tuple(p) for p in lst] for k, lst in val.items()}
+        _damage(val)
+        val2, exc2, out2 = _call(B.read_bisc_file, stem)
+        bad = {"exception": repr(exc2)} if exc2 is not None else _compare_dict(val2, keep, Perm)
+        if bad is not None:
+            bad["why2"] = "second read of the shipped file after the first answer was edited in place"
+            part.violation("shipped", {"file": fname}, bad)
+            return None
+        return val2
     return val
 
 
@@ -1382,10 +1440,10 @@ def _load_level(part, name, L, k):
     """(good level k, bad level k | None) of the len<L> files of one set, read once per process."""
     if (name, L) not in _LV:
         tmp = Partial()
-        g = _read_shipped(tmp, "%s_good_len%d.json" % (name, L))
+        g = _read_shipped(tmp, "%s_good_len%d.json" % (name, L), reread=False)
         b = None
         if os.path.isfile(os.path.join(_SHIPPED, "%s_bad_len%d.json" % (name, L))):
-            b = _read_shipped(tmp, "%s_bad_len%d.json" % (name, L))
+            b = _read_shipped(tmp, "%s_bad_len%d.json" % (name, L), reread=False)
         part.viols += tmp.viols
         part.nviol += tmp.nviol
         _LV[(name, L)] = None if g is None else (g, b)
